@@ -420,59 +420,6 @@ harness!(c09_bilinearity, 8, {
     cov!(!got, "fails");
 });
 
-// ---------------------------------------------------------------- get_single_function_properties
-// The function pushes up to six names into a `Vec` under symbolic conditions; with the 3-element carrier
-// CBMC runs out of memory (path-dependent heap growth, DESIGN §2), so this one uses the carrier {0,1}.
-//@ heavy=1
-harness!(c09_get_single_function_properties, 10, {
-    let f = tab2();
-    let e = below(2);
-    let z = below(2);
-    let inv: [u8; 2] = [below(2), below(2)];
-    let items: [u8; 2] = [0, 1];
-    let ap2 = |a: u8, b: u8| f[a as usize][b as usize];
-    let props = algebra::get_single_function_properties(&items, ap2, e, |a| inv[a as usize], z);
-    let has = |name: &str| props.iter().any(|p| *p == name);
-    let mut assoc = true;
-    let mut comm = true;
-    let mut ident = true;
-    let mut absorb = true;
-    let mut invs = true;
-    let mut a = 0u8;
-    while a < 2 {
-        if ap2(e, a) != a || ap2(a, e) != a {
-            ident = false;
-        }
-        if ap2(z, a) != z || ap2(a, z) != z {
-            absorb = false;
-        }
-        if ap2(a, inv[a as usize]) != e || ap2(inv[a as usize], a) != e {
-            invs = false;
-        }
-        let mut b = 0u8;
-        while b < 2 {
-            if ap2(a, b) != ap2(b, a) {
-                comm = false;
-            }
-            let mut c = 0u8;
-            while c < 2 {
-                if ap2(a, ap2(b, c)) != ap2(ap2(a, b), c) {
-                    assoc = false;
-                }
-                c += 1;
-            }
-            b += 1;
-        }
-        a += 1;
-    }
-    let idem = ap2(0, 0) == 0 && ap2(1, 1) == 1;
-    assert!(has("associativity") == assoc, "C09 properties list: associativity");
-    assert!(has("commutativity") == comm, "C09 properties list: commutativity");
-    assert!(has("idempotency") == idem, "C09 properties list: idempotency");
-    assert!(has("identity") == ident, "C09 properties list: identity");
-    assert!(has("inverse") == invs, "C09 properties list: inverse");
-    assert!(has("absorbing_element") == absorb, "C09 properties list: absorbing_element");
-    cov!(props.len() == 0, "no property");
-    cov!(props.len() >= 4, "many properties");
-    core::mem::forget(props);
-});
+// get_single_function_properties is NOT encoded: it pushes up to six names into a `Vec` under symbolic
+// conditions; CBMC runs out of memory on the path-dependent heap growth even over the carrier {0,1}
+// (DESIGN §2). Its six constituent checkers are each decided above; the wrapper is outside the claim.
